@@ -11,6 +11,8 @@ K = 0.4
 
 def stability(zm, L):
     zm, L = float(zm), float(L)
+    if math.isinf(L):  # exactly neutral: the common limit of both branches
+        return 1.0, 1.0, 0.0, 1.0
     if L < 0:
         xi = (1 - 16 * zm / L) ** 0.25
         phim, phic = 1 / xi, 1 / xi**2
